@@ -33,7 +33,7 @@ NEEDS = {
  'C14-b': 'write_str fast path for fragments arriving mid-line tests ends_with(newline) instead of contains: a later chunk with an interior newline loses guides and alignment',
 }
 rows = {}
-for log in sorted(glob.glob('/var/tmp/seedrun*.log')):
+for log in sorted(glob.glob('/verif/seeded/logs/seedrun*.log')):
     for l in open(log):
         m = re.match(r'^(C\d+-[a-z]) (C\d+) exit=(\d)\s*(.*)$', l.strip())
         if m: rows.setdefault(m.group(1), {})[m.group(2)] = (int(m.group(3)), m.group(4)[:300], os.path.basename(log))
